@@ -222,9 +222,36 @@ Definition detect_container (first_buf : bytes) : container :=
          end
   end.
 
-Definition detect_stream (r : reader) : container + ioerr :=
+(* the detection of the unrepaired code: whatever ONE fill_buf returns *)
+Definition detect_stream_first_chunk (r : reader) : container + ioerr :=
   match fill_buf r with
   | inr e => inr e
   | inl (buf, _) => inl (detect_container buf)
+  end.
+
+(* Builder::build_from_reader as repaired: reader.by_ref().take(1 << 16).read_to_end(&mut prefix), then detection
+   on Cursor(prefix).chain(reader), whose first fill_buf is the whole prefix *)
+Definition detect_prefix_len : nat := N.to_nat 65536.
+Fixpoint read_prefix (fuel n : nat) (r : reader) : (bytes * reader) + ioerr :=
+  match n with
+  | O => inl ([], r)
+  | S _ =>
+    match fuel with
+    | O => inl ([], r)
+    | S fuel' =>
+      match read_some n r with
+      | inr e => inr e
+      | inl ([], r') => inl ([], r')
+      | inl (got, r') => match read_prefix fuel' (n - length got) r' with
+                         | inl (more, r'') => inl (got ++ more, r'')
+                         | inr e => inr e
+                         end
+      end
+    end
+  end.
+Definition detect_stream (r : reader) : container + ioerr :=
+  match read_prefix (S detect_prefix_len) detect_prefix_len r with
+  | inr e => inr e
+  | inl (prefix, _) => inl (detect_container prefix)
   end.
 End Detect.
